@@ -49,6 +49,7 @@ const (
 	effPreserve
 	effG0
 	effPlain
+	effBump // an unexported helper that steps the attribute by one (and may leave it alone): the caller restores
 )
 
 type attrEff struct {
@@ -56,6 +57,8 @@ type attrEff struct {
 	copyFrom int // for effPlain: every plain write copies the same field of this parameter (-1: no)
 	needs    bool
 	wrote    bool
+	mayKeep  bool // effBump: some exit leaves the value as it was
+	retSaved int  // index of the result that carries the value the attribute had on entry (-1: none)
 }
 
 type stEvent struct {
@@ -71,6 +74,7 @@ type stResult struct {
 	events            []stEvent
 	prec0             []stEvent
 	wrote             bool
+	retSaved          int // see attrEff
 }
 
 type stickyEngine struct {
@@ -114,7 +118,7 @@ func newStickyEngine(m *model.Model, field int) *stickyEngine {
 		e.res[fn] = map[int]*stResult{}
 		for k, p := range fn.Params {
 			if m.IsDecPtr(p.Type()) {
-				e.eff[fn][k] = &attrEff{kind: effNone, copyFrom: -1}
+				e.eff[fn][k] = &attrEff{kind: effNone, copyFrom: -1, retSaved: -1}
 			}
 		}
 	}
@@ -145,12 +149,17 @@ func newStickyEngine(m *model.Model, field int) *stickyEngine {
 }
 
 func (e *stickyEngine) summarise(fn *ssa.Function, k int, r *stResult) *attrEff {
-	ne := &attrEff{kind: effNone, copyFrom: -1, wrote: r.wrote}
+	ne := &attrEff{kind: effNone, copyFrom: -1, wrote: r.wrote, retSaved: r.retSaved}
 	ne.needs = len(r.prec0) > 0
 	if e.field == e.m.F.Prec && e.m.FuncName(fn) == "(*Decimal).round" && k == 0 {
 		ne.needs = true
 	}
 	switch {
+	case r.exit&sX == 0 && r.exit&(sE1|sG1) != 0 && !e.m.IsExported(fn) && fn.Parent() == nil:
+		// an internal helper that takes one more digit (or one more step of the attribute)
+		// without rounding: the caller is the one that restores
+		ne.kind = effBump
+		ne.mayKeep = r.exit&(sE|sG) != 0
 	case r.exit&(sX|sE1|sG1) != 0:
 		ne.kind = effPlain
 		cf := -2
@@ -207,11 +216,12 @@ func (e *stickyEngine) analyse(fn *ssa.Function, k int) *stResult {
 
 func (e *stickyEngine) run(fn *ssa.Function, k int, strongMixed bool) *stResult {
 	m := e.m
-	res := &stResult{}
+	res := &stResult{retSaved: -2}
 	n := len(fn.Blocks)
 	in := make([]attrState, n)
 	in[0] = sE
 	loadState := map[ssa.Instruction]attrState{}
+	savedAt := map[ssa.Value]attrState{} // call -> state of the attribute when a callee that returns the saved value was entered
 	evSeen := map[string]bool{}
 	live := m.Live(fn)
 
@@ -333,6 +343,29 @@ func (e *stickyEngine) run(fn *ssa.Function, k int, strongMixed bool) *stResult 
 							}
 						}
 					}
+					if !handled {
+						// restore of the value a helper saved and returned: prec := z.extraDigit()
+						var call ssa.Value
+						idx := 0
+						switch x := ins.Val.(type) {
+						case *ssa.Extract:
+							call, idx = x.Tuple, x.Index
+						case *ssa.Call:
+							call = x
+						}
+						if c, ok := call.(*ssa.Call); ok {
+							if cal := c.Call.StaticCallee(); cal != nil && e.eff[cal] != nil {
+								for ai, a := range c.Call.Args {
+									if ce := e.eff[cal][ai]; ce != nil && ce.retSaved == idx && m.IsDecPtr(a.Type()) && m.RefOf(a).MayBeParam(k) {
+										if sv, ok := savedAt[c]; ok {
+											nw = sv
+											handled = true
+										}
+									}
+								}
+							}
+						}
+					}
 					if bo, ok := ins.Val.(*ssa.BinOp); ok && !handled && (bo.Op == token.ADD || bo.Op == token.SUB) {
 						if l, ok := bo.X.(*ssa.UnOp); ok && l.Op == token.MUL {
 							if lr, ok := isField(l.X); ok && lr.MayBeParam(k) {
@@ -380,7 +413,22 @@ func (e *stickyEngine) run(fn *ssa.Function, k int, strongMixed bool) *stResult 
 					if ce.wrote {
 						res.wrote = true
 					}
+					if ce.retSaved >= 0 {
+						if cv, ok := ins.(*ssa.Call); ok {
+							savedAt[cv] |= st
+						}
+					}
 					switch ce.kind {
+					case effBump:
+						o := plus(st, 1)
+						if ce.mayKeep {
+							o |= st
+						}
+						if strong {
+							st = o
+						} else {
+							st |= o
+						}
 					case effG0:
 						var o attrState
 						if st&(sE|sG) != 0 {
@@ -423,6 +471,20 @@ func (e *stickyEngine) run(fn *ssa.Function, k int, strongMixed bool) *stResult 
 				}
 			case *ssa.Return:
 				if record {
+					// which result, if any, is the value the attribute had on entry
+					found := -1
+					for ri, rv := range ins.Results {
+						if l, ok := stripConv(rv).(*ssa.UnOp); ok && l.Op == token.MUL {
+							if lr, ok := isField(l.X); ok && lr.OnlyParam(k) && loadState[l] == sE {
+								found = ri
+							}
+						}
+					}
+					if res.retSaved == -2 {
+						res.retSaved = found
+					} else if res.retSaved != found {
+						res.retSaved = -1
+					}
 					res.exit |= st
 					success := true
 					if len(ins.Results) > 0 && m.IsDecPtr(ins.Results[0].Type()) {
@@ -574,6 +636,9 @@ func (e *stickyEngine) run(fn *ssa.Function, k int, strongMixed bool) *stResult 
 			step(b, in[bi], true)
 		}
 	}
+	if res.retSaved == -2 {
+		res.retSaved = -1
+	}
 	return res
 }
 
@@ -602,8 +667,10 @@ func runFxSticky(m *model.Model, s *ob.Set) {
 				c := fmt.Sprintf("%s/%s.%s", name, fn.Params[k].Name(), fname)
 				why, ent := stickyEntitled(m, fn, k, field)
 				switch {
+				case eff.kind == effBump:
+					s.Note(R, c, m.Pos(fn.Pos()), fmt.Sprintf("internal helper that steps the %s by one without rounding; its callers are checked for restoring it (exit states %s)", fname, r.exit))
 				case eff.kind != effPlain:
-					kinds := []string{"never written", "restored on every exit", "written only when it was 0", ""}
+					kinds := []string{"never written", "restored on every exit", "written only when it was 0", "", ""}
 					d := kinds[eff.kind]
 					if !eff.wrote {
 						d = "never written"
